@@ -358,4 +358,14 @@ Section VertexRes.
     do tracks <- ok_filter fit clusters;                           (* :402-404 *)
     do '(primary, _) <- find tracks;                               (* :405 *)
     Ok primary.                                                    (* :405 .primary.map(|info| info.position) *)
+
+  (* the intermediate values of vertex() for one avalanche list: the clusters Track::try_from is called on (:397-401)
+     and the tracks find_vertices is handed (:402-404).  The hypotheses of C09_vertex_total_partial speak of these only. *)
+  Definition vertex_clusters (avs : list A) : res (list (list SP)) :=
+    do points <- ok_filter sp_of avs;
+    do '(clusters, _) <- cluster points;
+    Ok clusters.
+  Definition vertex_tracks (avs : list A) : res (list TR) :=
+    do clusters <- vertex_clusters avs;
+    ok_filter fit clusters.
 End VertexRes.
